@@ -168,6 +168,9 @@ pub fn patch_bytes(p: &PatchKind) -> Vec<u8> {
             b"[{\"op\":\"test\",\"path\":\"/n\",\"value\":\"nope\"},{\"op\":\"replace\",\"path\":\"/n\",\"value\":1}]".to_vec()
         }
         PatchKind::Malformed => b"this is not json".to_vec(),
+        PatchKind::Empty => b"[]".to_vec(),
+        PatchKind::AddSame => b"[{\"op\":\"add\",\"path\":\"/extra/same\",\"value\":1}]".to_vec(),
+        PatchKind::TestSame => b"[{\"op\":\"test\",\"path\":\"/extra/same\",\"value\":1}]".to_vec(),
         PatchKind::Grow(n) => format!("[{{\"op\":\"add\",\"path\":\"/g\",\"value\":\"{}\"}}]", "g".repeat(*n as usize)).into_bytes(),
     }
 }
@@ -239,6 +242,10 @@ pub struct Runner<'a> {
     pub marks: Option<crate::trace::DeviceRef>,
     /// fault engine: the device whose plan may make flush fail
     pub fault_dev: Option<crate::trace::DeviceRef>,
+    /// number of helper threads that call flush() at the same moment as every Op::Flush (0 = none)
+    pub co_flush: usize,
+    /// called (with the step) by every flusher, helper or main, the moment its flush() returned Ok
+    pub co_flush_ack: Option<std::sync::Arc<dyn Fn(usize) + Send + Sync>>,
     pub poisoned: bool,
 }
 
@@ -302,6 +309,8 @@ impl<'a> Runner<'a> {
             last_touched: None,
             marks,
             fault_dev: None,
+            co_flush: 0,
+            co_flush_ack: None,
             poisoned: false,
         })
     }
@@ -1253,7 +1262,38 @@ impl<'a> Runner<'a> {
         let faults_before = self.fault_dev.as_ref().map(|d| d.lock().unwrap().faults_injected);
         let r = {
             let _g = env::watch("flush");
-            self.store().flush()
+            if self.co_flush == 0 {
+                self.store().flush()
+            } else {
+                // several application threads acknowledge the same state: each Ok is an
+                // acknowledgement of its own, reported the moment it is returned
+                let n = self.co_flush;
+                let store = self.store.as_ref().expect("store");
+                let ack = self.co_flush_ack.clone();
+                let barrier = std::sync::Barrier::new(n + 1);
+                let r = std::thread::scope(|s| {
+                    for _ in 0..n {
+                        s.spawn(|| {
+                            barrier.wait();
+                            if store.flush().is_ok() {
+                                if let Some(a) = &ack {
+                                    a(step)
+                                }
+                            }
+                        });
+                    }
+                    barrier.wait();
+                    let r = store.flush();
+                    if r.is_ok() {
+                        if let Some(a) = &ack {
+                            a(step)
+                        }
+                    }
+                    r
+                });
+                self.stats.hit("flush_with_concurrent_flushers");
+                r
+            }
         };
         match r {
             Ok(()) => {
